@@ -41,7 +41,8 @@ let register () =
         Stdlib.String.concat "," (Stdlib.List.map op_string ops)
     | _ -> "ERR args");
   (* reach <writers> <tree> -> every tree reachable under any schedule (incl. partial and failing writes),
-     separated by '|'; base "s" *)
+     separated by '|'; then the trees in which every
+     writer has returned nil, then those in which every writer has returned and at least one failed; base "s" *)
   Drv.register "c08.reach" (fun args -> match args with
     | [ws; tree] ->
         let wa = parse_writers ws in
@@ -55,10 +56,15 @@ let register () =
         let key (fs, pcs) =
           print_fs fs ^ "#" ^ Stdlib.String.concat "," (Stdlib.List.init n (fun i -> pc_string (pcs (nat_of_int i)))) in
         let seen = Hashtbl.create 256 and trees = Hashtbl.create 256 in
+        let oks = Hashtbl.create 16 and errs = Hashtbl.create 16 in
         let todo = Queue.create () in
         let push s = let k = key s in
           if not (Hashtbl.mem seen k) then begin
-            Hashtbl.replace seen k (); Hashtbl.replace trees (print_fs (fst s)) (); Queue.add s todo end in
+            let t = print_fs (fst s) in
+            let pcs = Stdlib.List.init n (fun i -> pc_string (snd s (nat_of_int i))) in
+            if Stdlib.List.for_all (fun p -> p = "D") pcs then Hashtbl.replace oks t ()
+            else if Stdlib.List.for_all (fun p -> p = "D" || p = "X") pcs then Hashtbl.replace errs t ();
+            Hashtbl.replace seen k (); Hashtbl.replace trees t (); Queue.add s todo end in
         push (StoreCrash.init base wd (parse_fs tree));
         while not (Queue.is_empty todo) do
           let s = Queue.pop todo in
@@ -67,5 +73,7 @@ let register () =
               | Some s' -> push s' | None -> ()) actions
           done
         done;
-        Stdlib.String.concat "|" (Hashtbl.fold (fun k () acc -> k :: acc) trees [])
+        let dump h = let l = Hashtbl.fold (fun k () acc -> k :: acc) h [] in
+          if l = [] then "none" else Stdlib.String.concat "|" l in
+        dump trees ^ " " ^ dump oks ^ " " ^ dump errs
     | _ -> "ERR args")
